@@ -9,6 +9,7 @@ import (
 	"bufio"
 	"crypto/rand"
 	"crypto/x509/pkix"
+	"encoding/hex"
 	"encoding/json"
 	"fmt"
 	"net"
@@ -18,6 +19,7 @@ import (
 
 	"github.com/tjfoc/gmsm/gmtls"
 	"github.com/tjfoc/gmsm/sm2"
+	"github.com/tjfoc/gmsm/sm3"
 	"github.com/tjfoc/gmsm/x509"
 )
 
@@ -116,7 +118,27 @@ func withOtherKey(c gmtls.Certificate) gmtls.Certificate {
 // bytes captured from an earlier honest session under the same certificates
 type advReplay struct {
 	ske, cv []byte
+	sr, cr  string // the randoms of the recorded session
 }
+
+// a reproducible random source: SM3(seed || counter)
+type detRand struct {
+	seed string
+	ctr  uint32
+	buf  []byte
+}
+
+func (d *detRand) Read(p []byte) (int, error) {
+	for len(d.buf) < len(p) {
+		d.ctr++
+		d.buf = append(d.buf, sm3.Sm3Sum([]byte(fmt.Sprintf("%s/%d", d.seed, d.ctr)))...)
+	}
+	copy(p, d.buf[:len(p)])
+	d.buf = d.buf[len(p):]
+	return len(p), nil
+}
+
+var rndMu sync.Mutex
 
 var (
 	faultMu    sync.Mutex
@@ -234,6 +256,7 @@ type advObs struct {
 	CliPanic, SrvPanic       string
 	Timeout                  bool
 	Skipped                  string
+	SrvRandom, CliRandom     string
 }
 
 func runAdv(s *advScenario, replay *advReplay, capture *advReplay) (advObs, error) {
@@ -256,10 +279,24 @@ func runAdv(s *advScenario, replay *advReplay, capture *advReplay) (advObs, erro
 		sc.ClientAuth = gmtls.RequireAndVerifyClientCert
 		sc.ClientCAs = p.clientRoots
 		cl := p.cli[s.CliCert]
+		if s.CliCert == "good_then_other" {
+			other := p.cli["untrusted"]
+			cl = gmtls.Certificate{Certificate: [][]byte{p.cli["good"].Certificate[0], other.Certificate[0]}, PrivateKey: p.cli["good"].PrivateKey}
+			if s.CliKey == "of_other" {
+				cl.PrivateKey = other.PrivateKey
+			}
+		}
 		if s.CliKey == "wrong" {
 			cl = withOtherKey(cl)
 		}
 		cc.Certificates = []gmtls.Certificate{cl}
+	}
+	// reproducible randoms: the recorded session, and the replays that share one of its randoms
+	if capture != nil || s.Ske == "same_server_random" {
+		sc.Rand = &detRand{seed: "c08 server"}
+	}
+	if capture != nil || s.Ske == "same_client_random" {
+		cc.Rand = &detRand{seed: "c08 client"}
 	}
 	c1, c2 := net.Pipe()
 	s1, s2 := net.Pipe()
@@ -281,7 +318,7 @@ func runAdv(s *advScenario, replay *advReplay, capture *advReplay) (advObs, erro
 			switch {
 			case site == "ske" && s.Ske == "omitted":
 				return nil, true
-			case site == "ske" && s.Ske == "otherrandoms":
+			case site == "ske" && (s.Ske == "otherrandoms" || s.Ske == "same_server_random" || s.Ske == "same_client_random"):
 				return replay.ske, true
 			case site == "ske" && s.Ske == "badsig":
 				b := append([]byte(nil), honest...)
@@ -313,6 +350,16 @@ func runAdv(s *advScenario, replay *advReplay, capture *advReplay) (advObs, erro
 				return
 			}
 			out := []*record{r}
+			if plain && r.typ() == 22 && len(r.body) >= 38 && (r.body[0] == 1 || r.body[0] == 2) {
+				rnd := hex.EncodeToString(r.body[6:38])
+				rndMu.Lock()
+				if r.body[0] == 1 {
+					o.CliRandom = rnd
+				} else {
+					o.SrvRandom = rnd
+				}
+				rndMu.Unlock()
+			}
 			if plain && r.typ() == 20 {
 				plain = false
 			} else if plain && r.typ() == 22 && mitm != "none" {
@@ -386,7 +433,8 @@ func c08run(args []string) error {
 	if err != nil {
 		return err
 	}
-	if !o.CliComplete || !o.SrvComplete || rep.ske == nil || rep.cv == nil {
+	rep.sr, rep.cr = o.SrvRandom, o.CliRandom
+	if !o.CliComplete || !o.SrvComplete || rep.ske == nil || rep.cv == nil || rep.sr == "" || rep.cr == "" {
 		return fmt.Errorf("honest capture run failed: %+v", o)
 	}
 	sc := bufio.NewScanner(in)
@@ -405,6 +453,13 @@ func c08run(args []string) error {
 		o, err := runAdv(&s, &rep, nil)
 		if err != nil {
 			return err
+		}
+		// the replay scenarios are only realised if the intended random really is the recorded one
+		if s.Ske == "same_server_random" && (o.SrvRandom != rep.sr || o.CliRandom == rep.cr) {
+			return fmt.Errorf("scenario same_server_random not realised: server random %s vs recorded %s", o.SrvRandom, rep.sr)
+		}
+		if s.Ske == "same_client_random" && (o.CliRandom != rep.cr || o.SrvRandom == rep.sr) {
+			return fmt.Errorf("scenario same_client_random not realised: client random %s vs recorded %s", o.CliRandom, rep.cr)
 		}
 		b, _ := json.Marshal(map[string]interface{}{"case": row.Case, "got": o})
 		w.Write(b)
